@@ -430,3 +430,5 @@ func propC02() Prop[C02Case] {
 func TestC02(t *testing.T) { Run(t, propC02()) }
 
 func FuzzGenC02(f *testing.F) { RunFuzz(f, propC02()) }
+
+func TestRaceC02(t *testing.T) { RunConcurrent(t, propC02(), 4) }
